@@ -27,7 +27,14 @@ let bytes_of_hex (s : str) (from : int) : M.n list =
     r := byte_tab.(hexv s.[!i] * 16 + hexv s.[!i + 1]) :: !r; i := !i - 2
   done; !r
 
+(* z<count>: <count> pattern bytes (i*7+3) mod 256 -- keeps scripts with large inputs small *)
+let pattern_bytes (n : int) : M.n list =
+  let r = Stdlib.ref [] in
+  for i = n - 1 downto 0 do r := byte_tab.((i * 7 + 3) land 255) :: !r done; !r
+
 let tok_of_string (s : str) : M.tok =
+  if String.length s > 1 && s.[0] = 'z' && (try ignore (int_of_string (String.sub s 1 (String.length s - 1))); true with _ -> false)
+  then M.TH (pattern_bytes (int_of_string (String.sub s 1 (String.length s - 1)))) else
   if String.length s > 0 && s.[0] = '#' then M.TN (M.n_of_dec (bytes_of_string (String.sub s 1 (String.length s - 1))))
   else if String.length s > 0 && s.[0] = 'x' && (String.length s) land 1 = 1
           && (try for i = 1 to String.length s - 1 do ignore (hexv s.[i]) done; true with _ -> false)
